@@ -11,6 +11,15 @@ Reading guide.  `glob pat key` (Spec/Glob.lean) is the property's reading of a p
 not yet purged entries; keys are numbers and `name k` is the text of key `k`, arbitrary);
 `Tx` is the transaction overlay (backend store + overlay store + pending deletes) and `Tx.direct` the
 store obtained by applying its buffered effects directly.
+
+Values.  A (key, value) pair `get_match` yields carries an `Option Val`: `some v` is the value stored under
+the key — `some .nil` a stored Python `None`, `some (.int 0)` a stored `0`, … — and `none` would be the default
+that `get` hands back for a key that is not there; the two are different, and the theorems below say that
+`none` never comes out and that a key is never left out because of the value it holds, with one exception the
+code makes on purpose: a key whose value is a bit-field object (`Bitarray`, kept in the same store by
+`incr_bits`) is scanned and deleted like any other key but is not a cached *value* and `get_match` skips it.
+`bits : Val → Bool` says which stored values are such objects; every theorem holds for every `bits`
+(`holdsBits bits m k`: key `k` holds one, for a reader; `NoBits bits st`: store `st` contains none).
 -/
 namespace CashewsVerif.Props.C13
 open CashewsVerif Store Glob
@@ -139,13 +148,51 @@ theorem delete_match_exact (name : Nat → List Char) (m : Mem) (h : (keys m.sto
   · rw [deleteMatch_store h]; rfl
   · rw [deleteMatch_store h]
 
-/-- **`get_match` yields exactly the live matching keys, each with its own value**, in store
-order, and changes nothing a reader can see. -/
-theorem get_match_exact (name : Nat → List Char) (m : Mem) (h : (keys m.store).Nodup) (pat : List Char) :
-    (getMatch name m pat).2 =
-        (m.store.filter (fun ke => ke.2.live m.now && glob pat (name ke.1))).map (fun ke => (ke.1, some ke.2.val)) ∧
-    ∀ k, (getMatch name m pat).1.view k = m.view k :=
-  ⟨getMatch_out h pat, getMatch_view name m pat⟩
+/-- **`get_match` yields exactly the live matching keys that hold a value, each with its own value**, in
+store order, and changes nothing a reader can see.  "Hold a value": every live matching entry is yielded
+except those whose value is a bit-field object; the value yielded is the stored one whatever it is
+(`None`, `0`, an empty string or list included — there is no truthiness or `is None` test). -/
+theorem get_match_exact (name : Nat → List Char) (bits : Val → Bool) (m : Mem) (h : (keys m.store).Nodup) (pat : List Char) :
+    (getMatch name bits m pat).2 =
+        (m.store.filter (fun ke => (ke.2.live m.now && glob pat (name ke.1)) && !bits ke.2.val)).map
+          (fun ke => (ke.1, some ke.2.val)) ∧
+    ∀ k, (getMatch name bits m pat).1.view k = m.view k :=
+  ⟨getMatch_out h pat, getMatch_view name bits m pat⟩
+
+/-- `get_match`, pair by pair against the reader's view: `(k, v)` is yielded iff `k` is present for a reader
+(`get` would find it), its text matches, the value found is not a bit-field object, and `v` is exactly that
+value. -/
+theorem get_match_mem_iff (name : Nat → List Char) (bits : Val → Bool) (m : Mem) (h : (keys m.store).Nodup)
+    (pat : List Char) (k : Key) (v : Option Val) :
+    (k, v) ∈ (getMatch name bits m pat).2 ↔
+      ∃ e, m.view k = some e ∧ glob pat (name k) = true ∧ bits e.val = false ∧ v = some e.val :=
+  mem_getMatch_iff h pat k v
+
+/-- **`get_match` selects what `scan` selects.**  The keys it yields are the keys `scan` yields for the same
+pattern, in the same order, minus the keys holding a bit field; on a store without bit fields the two
+selections are the same list — and hence (`delete_match_exact`) exactly the keys `delete_match` removes. -/
+theorem get_match_selection_is_scan (name : Nat → List Char) (bits : Val → Bool) (m : Mem) (h : (keys m.store).Nodup)
+    (pat : List Char) :
+    (getMatch name bits m pat).2.map (·.1) = (scan name m pat).filter (fun k => !holdsBits bits m k) ∧
+    (NoBits bits m.store → (getMatch name bits m pat).2.map (·.1) = scan name m pat) := by
+  refine ⟨getMatch_keys h pat, fun hn => ?_⟩
+  rw [getMatch_keys h pat]
+  apply List.filter_eq_self.mpr
+  intro k _
+  simp [holdsBits_of_noBits hn k]
+
+/-- **A stored `None` (or any other value) is a value, not an absence.**  A key that is present for a reader,
+matches, and holds any value `w` that is not a bit-field object — `w = .nil` is a stored `None`,
+`w = .int 0` a stored `0` — comes out as `(k, some w)`; and no pair ever carries the default `none`
+(`get_match` does not report a key it found with "nothing"). -/
+theorem get_match_keeps_every_value (name : Nat → List Char) (bits : Val → Bool) (m : Mem) (h : (keys m.store).Nodup)
+    (pat : List Char) :
+    (∀ k e, m.view k = some e → glob pat (name k) = true → bits e.val = false →
+        (k, some e.val) ∈ (getMatch name bits m pat).2) ∧
+    (∀ k, (k, none) ∉ (getMatch name bits m pat).2) := by
+  refine ⟨fun k e hv hg hb => (mem_getMatch_iff h pat k _).mpr ⟨e, hv, hg, hb, rfl⟩, fun k hk => ?_⟩
+  obtain ⟨e, _, _, _, he⟩ := (mem_getMatch_iff h pat k none).mp hk
+  exact absurd he (by simp)
 
 /-- **Inside a transaction the selection is the direct one.**  For every split of the keys
 between the backend store (with expired entries), the overlay and the pending deletes, the keys
@@ -166,54 +213,48 @@ theorem tx_scan_mem_iff (name : Nat → List Char) (t : Tx) (hb : (keys t.backen
     k ∈ t.scan name pat ↔ (t.view k).isSome ∧ glob pat (name k) = true :=
   Tx.mem_scan_iff hb ho pat k
 
+/-- **`get_match` inside a transaction**, pair by pair against the transaction's merged view of each key
+(own live write first, else the store's live entry unless its deletion is pending): `(k, v)` is yielded iff
+`k` is visible in the transaction, matches, what is visible is not a bit-field object and `v` is the visible
+value.  Hypothesis `NoBits bits t.overlay`: the transaction has buffered no bit-field object (true of every
+state the transaction commands produce — `incr_bits` is proxied to the backend, `set` stores the caller's
+value; see `tx_commands_keep_overlay_values`). -/
+theorem tx_get_match_mem_iff (name : Nat → List Char) (bits : Val → Bool) (t : Tx) (hb : (keys t.backend).Nodup)
+    (ho : (keys t.overlay).Nodup) (hov : NoBits bits t.overlay) (pat : List Char) (k : Key) (v : Option Val) :
+    (k, v) ∈ (t.getMatch name bits pat).2 ↔
+      ∃ e, t.view k = some e ∧ glob pat (name k) = true ∧ bits e.val = false ∧ v = some e.val :=
+  Tx.mem_getMatch_iff hb ho hov pat k v
+
 /-- **`get_match` inside a transaction** yields, up to order and without repetition, the same
-(key, value) pairs as `get_match` on the directly updated store. -/
-theorem tx_get_match_same (name : Nat → List Char) (t : Tx) (hb : (keys t.backend).Nodup)
-    (ho : (keys t.overlay).Nodup) (pat : List Char) :
-    (t.getMatch name pat).2.Perm (getMatch name t.direct pat).2 := by
+(key, value) pairs as `get_match` on the directly updated store — same keys, each with the value a direct
+execution would give it (a stored `None` included). -/
+theorem tx_get_match_same (name : Nat → List Char) (bits : Val → Bool) (t : Tx) (hb : (keys t.backend).Nodup)
+    (ho : (keys t.overlay).Nodup) (hov : NoBits bits t.overlay) (pat : List Char) :
+    (t.getMatch name bits pat).2.Perm (getMatch name bits t.direct pat).2 ∧ (t.getMatch name bits pat).2.Nodup := by
   have hd := Tx.nodup_direct hb
-  -- membership in the pairs a `getMatch` yields
-  have mem_pairs : ∀ (m : Mem), (keys m.store).Nodup → ∀ k v,
-      (k, v) ∈ (getMatch name m pat).2 ↔ ∃ e, m.view k = some e ∧ glob pat (name k) = true ∧ v = some e.val := by
-    intro m hm k v
-    rw [getMatch_out hm]
-    simp only [List.mem_map, List.mem_filter, sel, Bool.and_eq_true, Prod.mk.injEq]
-    constructor
-    · rintro ⟨⟨k', e⟩, ⟨hmem, hl, hg⟩, rfl, rfl⟩
-      exact ⟨e, by simp [Mem.view, lookup_of_mem hm hmem, Option.filter, hl], hg, rfl⟩
-    · rintro ⟨e, hv, hg, rfl⟩
-      simp only [Mem.view, Option.filter_eq_some_iff] at hv
-      exact ⟨(k, e), ⟨mem_of_lookup hv.1, hv.2, hg⟩, rfl, rfl⟩
-  have nodup_pairs : ∀ (m : Mem), (keys m.store).Nodup → (getMatch name m pat).2.Nodup := by
-    intro m hm
-    rw [getMatch_out hm]
-    have hk : ((m.store.filter (sel name m.now pat)).map (·.1)).Nodup := nodup_keys_filter hm _
-    have hp := List.pairwise_map.mp hk
-    exact List.pairwise_map.mpr (hp.imp (fun {a b} (hne : a.1 ≠ b.1) (heq : (a.1, some a.2.val) = (b.1, some b.2.val)) => hne (congrArg Prod.fst heq)))
-  have fst_pairs : ∀ (m : Mem), (keys m.store).Nodup → (getMatch name m pat).2.map (·.1) = scan name m pat := by
-    intro m hm
-    rw [getMatch_out hm, scan_eq, List.map_map]; rfl
-  have hno : (t.getMatch name pat).2.Nodup := by
-    unfold Tx.getMatch
-    refine List.nodup_append.mpr ⟨nodup_pairs t.omem ho, (nodup_pairs t.bmem hb).filter _, ?_⟩
-    intro a ha b hb' hab
-    subst hab
-    simp only [List.mem_filter, Bool.and_eq_true, Bool.not_eq_true', List.contains_eq_mem,
-      decide_eq_false_iff_not] at hb'
-    exact hb'.2.2 (List.mem_map.mpr ⟨a, ha, rfl⟩)
-  rw [List.perm_ext_iff_of_nodup hno (nodup_pairs _ hd)]
+  refine ⟨?_, Tx.nodup_getMatch_out hb ho pat⟩
+  rw [List.perm_ext_iff_of_nodup (Tx.nodup_getMatch_out hb ho pat) (nodup_getMatch_out hd pat)]
   rintro ⟨k, v⟩
-  rw [mem_pairs _ hd, Tx.direct_view ho]
-  unfold Tx.getMatch
-  simp only [List.mem_append, List.mem_filter, Bool.and_eq_true, Bool.not_eq_true', List.contains_eq_mem,
-    decide_eq_false_iff_not]
-  rw [fst_pairs t.omem ho, mem_scan_iff (m := t.omem) ho, mem_pairs t.omem ho, mem_pairs t.bmem hb]
-  unfold Tx.view
-  cases hov : t.omem.view k with
-  | some e =>
-    by_cases hg : glob pat (name k) = true <;> simp [hg]
-  | none =>
-    by_cases hdel : k ∈ t.del <;> simp [hdel]
+  rw [Tx.mem_getMatch_iff hb ho hov, mem_getMatch_iff hd, Tx.direct_view ho]
+
+/-- **The transaction's own write is what `get_match` reports** — whatever was written.  If the transaction
+wrote `k` (the write is live in the overlay) with value `w` and the pattern matches, then `(k, some w)` is
+yielded and no other pair for `k` is: in particular, overwriting a store key with `None` yields
+`(k, some .nil)`, never the stale store value and never nothing. -/
+theorem tx_get_match_own_write_wins (name : Nat → List Char) (bits : Val → Bool) (t : Tx) (hb : (keys t.backend).Nodup)
+    (ho : (keys t.overlay).Nodup) (hov : NoBits bits t.overlay) (pat : List Char) (k : Key) (e : Entry)
+    (hw : t.omem.view k = some e) (hg : glob pat (name k) = true) :
+    (k, some e.val) ∈ (t.getMatch name bits pat).2 ∧
+    ∀ v, (k, v) ∈ (t.getMatch name bits pat).2 → v = some e.val := by
+  have hv : t.view k = some e := by simp [Tx.view, hw]
+  have hbit : bits e.val = false := by
+    simp only [Mem.view, Option.filter_eq_some_iff] at hw
+    exact hov (k, e) (mem_of_lookup hw.1)
+  refine ⟨(Tx.mem_getMatch_iff hb ho hov pat k _).mpr ⟨e, hv, hg, hbit, rfl⟩, fun v hmem => ?_⟩
+  obtain ⟨e', hv', _, _, rfl⟩ := (Tx.mem_getMatch_iff hb ho hov pat k v).mp hmem
+  rw [hv] at hv'
+  cases hv'
+  rfl
 
 /-- **`delete_match` inside a transaction** has, on the directly updated store, exactly the
 effect of `delete_match` executed there: applying the transaction's effects after an
@@ -261,12 +302,12 @@ theorem tx_delete_match_same (name : Nat → List Char) (t : Tx) (hb : (keys t.b
 /-- The hypothesis of the theorems above (keys of a store are distinct — an `OrderedDict` cannot
 hold a key twice) holds in every state the modelled commands can produce: it is preserved by the
 transaction's `set`, `delete`, `delete_match` and `get_match`, and holds of the directly updated store. -/
-theorem tx_commands_keep_keys_distinct (name : Nat → List Char) (t : Tx) (hb : (keys t.backend).Nodup)
+theorem tx_commands_keep_keys_distinct (name : Nat → List Char) (bits : Val → Bool) (t : Tx) (hb : (keys t.backend).Nodup)
     (ho : (keys t.overlay).Nodup) (k : Key) (v : Val) (ttl : Option Nat) (pat : List Char) :
     ((keys (t.set k v ttl).backend).Nodup ∧ (keys (t.set k v ttl).overlay).Nodup) ∧
     ((keys (t.delete k).backend).Nodup ∧ (keys (t.delete k).overlay).Nodup) ∧
     ((keys (t.deleteMatch name pat).backend).Nodup ∧ (keys (t.deleteMatch name pat).overlay).Nodup) ∧
-    ((keys (t.getMatch name pat).1.backend).Nodup ∧ (keys (t.getMatch name pat).1.overlay).Nodup) ∧
+    ((keys (t.getMatch name bits pat).1.backend).Nodup ∧ (keys (t.getMatch name bits pat).1.overlay).Nodup) ∧
     (keys t.direct.store).Nodup := by
   refine ⟨⟨hb, nodup_rawSet (m := t.omem) ho k v ttl⟩, ⟨hb, ?_⟩,
     ⟨hb, nodup_deleteMatch (m := t.omem) ho pat⟩,
@@ -274,6 +315,25 @@ theorem tx_commands_keep_keys_distinct (name : Nat → List Char) (t : Tx) (hb :
   show (keys (t.omem.rawDelete k).1.store).Nodup
   rw [rawDelete_eq]
   exact Mem.nodup_keys_erase ho k
+
+/-- The other hypothesis of the in-transaction `get_match` theorems (the overlay holds no bit-field object)
+holds in every state the modelled transaction commands can produce: true of the empty overlay a transaction
+starts with, preserved by `set` of a value that is not a bit-field object (any cached value: `None`, numbers,
+strings, …), by `delete`, `delete_match` and `get_match`. -/
+theorem tx_commands_keep_overlay_values (name : Nat → List Char) (bits : Val → Bool) (t : Tx)
+    (hov : NoBits bits t.overlay) (k : Key) (v : Val) (hv : bits v = false) (ttl : Option Nat) (pat : List Char) :
+    NoBits bits ([] : Store) ∧
+    NoBits bits (t.set k v ttl).overlay ∧ NoBits bits (t.delete k).overlay ∧
+    NoBits bits (t.deleteMatch name pat).overlay ∧ NoBits bits (t.getMatch name bits pat).1.overlay := by
+  refine ⟨fun _ h => absurd h (by simp), noBits_rawSet (m := t.omem) hov k hv ttl, ?_, ?_, ?_⟩
+  · show NoBits bits (t.omem.rawDelete k).1.store
+    rw [rawDelete_eq]
+    exact noBits_erase hov k
+  · show NoBits bits (deleteMatch name t.omem pat).store
+    unfold deleteMatch
+    rw [foldl_rawDelete_eq, foldl_erase_eq_filter]
+    exact noBits_filter hov _
+  · exact noBits_getMany (m := t.omem) _ hov
 
 /-! ### Non-vacuity: the model computes, hypotheses are satisfiable -/
 
@@ -297,6 +357,11 @@ example : parse ['a', '(', 'b'] = none ∧ parse ['a', '\\', '(', 'b'] = some [.
 def exName : Nat → List Char
   | 0 => ['a', '.', 'b'] | 1 => ['a', 'x', 'b'] | 2 => ['a', '.', 'c'] | _ => ['a', '.', 'b', 'b']
 
+/-- in the examples a list of numbers stands for a `Bitarray` object -/
+def exBits : Val → Bool
+  | .nums _ => true
+  | _ => false
+
 /-- a store at instant 5 with a live key, a key that only a regex `.` would match, an expired
 unpurged matching key (deadline 3) and a live one with a deadline -/
 def exMem : Mem :=
@@ -305,7 +370,7 @@ def exMem : Mem :=
 
 example : (keys exMem.store).Nodup := by decide
 example : scan exName exMem ['a', '.', '*'] = [0, 2] := by decide
-example : (getMatch exName exMem ['a', '.', '*']).2 = [(0, some (.tok 0)), (2, some (.tok 2))] := by decide
+example : (getMatch exName exBits exMem ['a', '.', '*']).2 = [(0, some (.tok 0)), (2, some (.tok 2))] := by decide
 example : (deleteMatch exName exMem ['a', '.', 'b', '*']).store.map (·.1) = [1, 3, 2] := by decide
 
 /-- a transaction: store holds 0,1 and (expired) 3; the transaction overwrote 1, wrote 2, deleted 0 -/
@@ -317,7 +382,32 @@ def exTx : Tx :=
 
 example : (keys exTx.backend).Nodup ∧ (keys exTx.overlay).Nodup := by decide
 example : exTx.scan exName ['a', '*'] = [2, 1] ∧ scan exName exTx.direct ['a', '*'] = [2, 1] := by decide
-example : (exTx.getMatch exName ['a', '*']).2 = [(2, some (.tok 2)), (1, some (.tok 11))] := by decide
+example : (exTx.getMatch exName exBits ['a', '*']).2 = [(2, some (.tok 2)), (1, some (.tok 11))] := by decide
+example : NoBits exBits exTx.overlay := by decide
+
+/-- values: key 0 holds a stored `None`, key 1 a `0`, key 2 a bit field, key 3 (expired) a token -/
+def exValMem : Mem :=
+  { now := 5, cap := 10,
+    store := [(0, ⟨.nil, none⟩), (1, ⟨.int 0, none⟩), (2, ⟨.nums [5], some 9⟩), (3, ⟨.tok 3, some 3⟩)] }
+
+/-- `scan` yields the bit-field key, `get_match` skips it and only it: the stored `None` and `0` come out as values -/
+example : scan exName exValMem ['a', '*'] = [0, 1, 2]
+    ∧ (getMatch exName exBits exValMem ['a', '*']).2 = [(0, some .nil), (1, some (.int 0))]
+    ∧ holdsBits exBits exValMem 2 = true ∧ holdsBits exBits exValMem 0 = false
+    ∧ ¬ NoBits exBits exValMem.store := by decide
+
+/-- a transaction over that store that overwrote key 1 with `None`, the bit-field key 2 with a token, and
+deleted key 0: `(1, None)` — not the store's `0` — and `(2, tok)` are yielded; the same on the directly updated store -/
+def exValTx : Tx :=
+  { now := 5, backend := exValMem.store,
+    overlay := [(1, ⟨.nil, none⟩), (2, ⟨.tok 7, none⟩)], del := [0] }
+
+example : NoBits exBits exValTx.overlay ∧ (keys exValTx.backend).Nodup ∧ (keys exValTx.overlay).Nodup := by decide
+example : (exValTx.getMatch exName exBits ['a', '*']).2 = [(1, some .nil), (2, some (.tok 7))]
+    ∧ (getMatch exName exBits exValTx.direct ['a', '*']).2 = [(1, some .nil), (2, some (.tok 7))] := by decide
+/-- without the hypothesis the statement fails (so it is needed): a bit field buffered over a store value -/
+example : (({ exValTx with overlay := [(1, ⟨.nums [1], none⟩)] } : Tx).getMatch exName exBits ['a', '*']).2
+    = [(1, some (.int 0))] := by decide
 example : ((exTx.deleteMatch exName ['a', '.', '*']).direct.store.map (·.1)) = [3, 1] := by decide
 
 end CashewsVerif.Props.C13
